@@ -22,7 +22,7 @@ const c09AnyYang = `module gn { namespace "urn:gn"; prefix gn;
  container c {
   leaf before { type string; }
   choice k {
-   case a { leaf al { type string; } anydata ab; container ac { leaf v { type string; } } }
+   case a { leaf al { type string; } anydata ab; container ac { leaf v { type string; } } leaf a2 { when "al"; type string; } }
    case b { leaf bl { type string; } anyxml bx; }
    anydata sh;
    case d { leaf dl { type string; } choice inner { case i1 { anydata deep; leaf i1l { type string; } } case i2 { leaf il { type string; } } } }
@@ -33,7 +33,7 @@ const c09AnyYang = `module gn { namespace "urn:gn"; prefix gn;
 
 // the nodes of each case, by the path of cases that leads to them
 var c09AnyCases = map[string][]string{
-	"a":    {"al", "ab", "ac"},
+	"a":    {"al", "ab", "ac", "a2"},
 	"b":    {"bl", "bx"},
 	"sh":   {"sh"},
 	"d":    {"dl"},
@@ -42,9 +42,10 @@ var c09AnyCases = map[string][]string{
 }
 
 type c09AnyStep struct {
-	Case  string   `json:"case"`  // a | b | sh | d | d/i1 | d/i2
-	Nodes []string `json:"nodes"` // the nodes of that case the upsert writes (one at least)
-	How   string   `json:"how"`   // upsert | set (SetValue on a leaf of the case, where it has one)
+	Case    string   `json:"case"`  // a | b | sh | d | d/i1 | d/i2
+	Nodes   []string `json:"nodes"` // the nodes of that case the upsert writes (one at least)
+	How     string   `json:"how"`   // upsert | set (SetValue on a leaf of the case, where it has one)
+	dropped bool
 }
 
 type c09AnyCase struct {
@@ -64,7 +65,7 @@ func c09AnyValue(name string, step int) interface{} {
 
 var c09Any = hx.Register(&hx.Check[c09AnyCase]{
 	Name: "c09-anydata-cases",
-	Rule: "a choice whose cases hold leaves, a container, anydata and anyxml nodes (one anydata as a shorthand case, one in a case of a nested choice); 2-6 upserts (or SetValue of a leaf) each writing some nodes of one case into a map-backed Reflect or Node store; after every step the container holds exactly the nodes written since the current case (and nested case) was selected, whatever kind of node held the data of the case that went; non-trivial = a switch away from a case whose anydata / anyxml node held data",
+	Rule: "a choice whose cases hold leaves (one with a when that reads its sibling), a container, anydata and anyxml nodes (one anydata as a shorthand case, one in a case of a nested choice); 2-6 upserts (or SetValue of a leaf) each writing some nodes of one case into a map-backed Reflect or Node store; after every step the container holds exactly the nodes written since the current case (and nested case) was selected, whatever kind of node held the data of the case that went; non-trivial = a switch away from a case whose anydata / anyxml node held data",
 	Gen: func(t *rapid.T) c09AnyCase {
 		c := c09AnyCase{Store: rapid.SampledFrom([]string{"reflect-map", "node-map"}).Draw(t, "store")}
 		names := []string{"a", "b", "sh", "d", "d/i1", "d/i2"}
@@ -104,6 +105,20 @@ var c09Any = hx.Register(&hx.Check[c09AnyCase]{
 		model := map[string]interface{}{"before": "b0", "after": "a0"}
 		top, inner := "", ""
 		for i, st := range c.Steps {
+			// a2 has a when ("al" has a value): where that is false the write of a2 is not carried out, and a write
+			// that is not carried out selects no case either
+			if containsStr(st.Nodes, "a2") && !containsStr(st.Nodes, "al") {
+				if _, alThere := model["al"]; !alThere || top != "a" {
+					var rest []string
+					for _, n := range st.Nodes {
+						if n != "a2" {
+							rest = append(rest, n)
+						}
+					}
+					st.Nodes = rest
+					st.dropped = true
+				}
+			}
 			parts := strings.SplitN(st.Case, "/", 2)
 			newTop, newInner := parts[0], ""
 			if len(parts) > 1 {
@@ -117,6 +132,9 @@ var c09Any = hx.Register(&hx.Check[c09AnyCase]{
 					}
 					delete(model, n)
 				}
+			}
+			if len(st.Nodes) == 0 {
+				newTop, newInner = top, ""
 			}
 			if top != "" && newTop != top {
 				for cs := range c09AnyCases {
@@ -139,6 +157,9 @@ var c09Any = hx.Register(&hx.Check[c09AnyCase]{
 			for _, n := range st.Nodes {
 				content[n] = c09AnyValue(n, i)
 				model[n] = content[n]
+			}
+			if st.dropped {
+				content["a2"] = c09AnyValue("a2", i) // still in the request
 			}
 			var uerr error
 			if o.Guard("edit", func() {
